@@ -50,6 +50,8 @@ var ghost struct {
 	cfFile int
 	cfLine int
 
+	ioFmt int // content identity of the string the latest fmt.Sprintf call returned (C10 WithSkip)
+
 	warns int // number of diagnostic Warn calls issued by printOut after a failed destination (C13)
 }
 
@@ -1971,6 +1973,10 @@ func specWrapped(x LogWriter, w io.Writer) bool {
 //@   requires s != nil
 //@   assigns everything
 //@   maypanic
+//@   keeps Entry.name, Entry.owner, Entry.items, Entry.useJSON, Entry.useColor, Entry.timeLayout, Entry.modeUTC, Entry.level, Entry.attrs, Entry.valueStringer, Entry.handlerOpt, Entry.extraFrames, Entry.contextKeys
+//@   keeps Entry.writer except s
+//@   keeps dualWriter.* except old(s.writer)
+//@   keeps map[string]*Entry
 //@   ensures [C03.C10.ret] result == s && s.writer != nil && (s.writer == old(s.writer) || (old(s.writer) == nil && fresh(s.writer)))
 //@   at call (*dualWriter).SetWriter assert [C03.forward] callee.s == s.writer && callee.w == wr
 //@
@@ -1979,6 +1985,10 @@ func specWrapped(x LogWriter, w io.Writer) bool {
 //@   requires s != nil
 //@   assigns everything
 //@   maypanic
+//@   keeps Entry.name, Entry.owner, Entry.items, Entry.useJSON, Entry.useColor, Entry.timeLayout, Entry.modeUTC, Entry.level, Entry.attrs, Entry.valueStringer, Entry.handlerOpt, Entry.extraFrames, Entry.contextKeys
+//@   keeps Entry.writer except s
+//@   keeps dualWriter.* except old(s.writer)
+//@   keeps map[string]*Entry
 //@   ensures [C03.C10.ret] result == s && s.writer != nil && (s.writer == old(s.writer) || (old(s.writer) == nil && fresh(s.writer)))
 //@   at call (*dualWriter).Add assert [C03.forward] callee.s == s.writer && callee.w == wr
 //@
@@ -1987,6 +1997,10 @@ func specWrapped(x LogWriter, w io.Writer) bool {
 //@   requires s != nil
 //@   assigns everything
 //@   maypanic
+//@   keeps Entry.name, Entry.owner, Entry.items, Entry.useJSON, Entry.useColor, Entry.timeLayout, Entry.modeUTC, Entry.level, Entry.attrs, Entry.valueStringer, Entry.handlerOpt, Entry.extraFrames, Entry.contextKeys
+//@   keeps Entry.writer except s
+//@   keeps dualWriter.* except old(s.writer)
+//@   keeps map[string]*Entry
 //@   ensures [C03.C10.ret] result == s && s.writer != nil && (s.writer == old(s.writer) || (old(s.writer) == nil && fresh(s.writer)))
 //@   at call (*dualWriter).SetErrorWriter assert [C03.forward] callee.s == s.writer && callee.w == wr
 //@
@@ -1995,6 +2009,10 @@ func specWrapped(x LogWriter, w io.Writer) bool {
 //@   requires s != nil
 //@   assigns everything
 //@   maypanic
+//@   keeps Entry.name, Entry.owner, Entry.items, Entry.useJSON, Entry.useColor, Entry.timeLayout, Entry.modeUTC, Entry.level, Entry.attrs, Entry.valueStringer, Entry.handlerOpt, Entry.extraFrames, Entry.contextKeys
+//@   keeps Entry.writer except s
+//@   keeps dualWriter.* except old(s.writer)
+//@   keeps map[string]*Entry
 //@   ensures [C03.C10.ret] result == s && s.writer != nil && (s.writer == old(s.writer) || (old(s.writer) == nil && fresh(s.writer)))
 //@   at call (*dualWriter).AddErrorWriter assert [C03.forward] callee.s == s.writer && callee.w == wr
 //@
@@ -2003,6 +2021,10 @@ func specWrapped(x LogWriter, w io.Writer) bool {
 //@   requires s != nil
 //@   assigns everything
 //@   maypanic
+//@   keeps Entry.name, Entry.owner, Entry.items, Entry.useJSON, Entry.useColor, Entry.timeLayout, Entry.modeUTC, Entry.level, Entry.attrs, Entry.valueStringer, Entry.handlerOpt, Entry.extraFrames, Entry.contextKeys
+//@   keeps Entry.writer except s
+//@   keeps dualWriter.* except old(s.writer)
+//@   keeps map[string]*Entry
 //@   ensures [C03.C10.ret] result == s && s.writer != nil && (s.writer == old(s.writer) || (old(s.writer) == nil && fresh(s.writer)))
 //@   at call (*dualWriter).AddLevelWriter assert [C03.forward] callee.s == s.writer && callee.w == w && callee.lvl == lvl
 //@
@@ -2011,6 +2033,10 @@ func specWrapped(x LogWriter, w io.Writer) bool {
 //@   requires s != nil
 //@   assigns everything
 //@   maypanic
+//@   keeps Entry.name, Entry.owner, Entry.items, Entry.useJSON, Entry.useColor, Entry.timeLayout, Entry.modeUTC, Entry.level, Entry.attrs, Entry.valueStringer, Entry.handlerOpt, Entry.extraFrames, Entry.contextKeys
+//@   keeps Entry.writer except s
+//@   keeps dualWriter.* except old(s.writer)
+//@   keeps map[string]*Entry
 //@   ensures [C03.C10.ret] result == s && s.writer != nil && (s.writer == old(s.writer) || (old(s.writer) == nil && fresh(s.writer)))
 //@   at call (*dualWriter).RemoveLevelWriter assert [C03.forward] callee.s == s.writer && callee.w == w && callee.lvl == lvl
 //@
@@ -2019,6 +2045,10 @@ func specWrapped(x LogWriter, w io.Writer) bool {
 //@   requires s != nil
 //@   assigns everything
 //@   maypanic
+//@   keeps Entry.name, Entry.owner, Entry.items, Entry.useJSON, Entry.useColor, Entry.timeLayout, Entry.modeUTC, Entry.level, Entry.attrs, Entry.valueStringer, Entry.handlerOpt, Entry.extraFrames, Entry.contextKeys
+//@   keeps Entry.writer except s
+//@   keeps dualWriter.* except old(s.writer)
+//@   keeps map[string]*Entry
 //@   ensures [C03.C10.ret] result == s && s.writer != nil && (s.writer == old(s.writer) || (old(s.writer) == nil && fresh(s.writer)))
 //@   at call (*dualWriter).ResetLevelWriter assert [C03.forward] callee.s == s.writer && callee.lvl == lvl
 //@
@@ -2027,6 +2057,10 @@ func specWrapped(x LogWriter, w io.Writer) bool {
 //@   requires s != nil
 //@   assigns everything
 //@   maypanic
+//@   keeps Entry.name, Entry.owner, Entry.items, Entry.useJSON, Entry.useColor, Entry.timeLayout, Entry.modeUTC, Entry.level, Entry.attrs, Entry.valueStringer, Entry.handlerOpt, Entry.extraFrames, Entry.contextKeys
+//@   keeps Entry.writer except s
+//@   keeps dualWriter.* except old(s.writer)
+//@   keeps map[string]*Entry
 //@   ensures [C03.C10.ret] result == s && s.writer != nil && (s.writer == old(s.writer) || (old(s.writer) == nil && fresh(s.writer)))
 //@   at call (*dualWriter).ResetLevelWriters assert [C03.forward] callee.s == s.writer && true
 //@
@@ -2035,6 +2069,10 @@ func specWrapped(x LogWriter, w io.Writer) bool {
 //@   requires s != nil
 //@   assigns everything
 //@   maypanic
+//@   keeps Entry.name, Entry.owner, Entry.items, Entry.useJSON, Entry.useColor, Entry.timeLayout, Entry.modeUTC, Entry.level, Entry.attrs, Entry.valueStringer, Entry.handlerOpt, Entry.extraFrames, Entry.contextKeys
+//@   keeps Entry.writer except s
+//@   keeps dualWriter.* except old(s.writer)
+//@   keeps map[string]*Entry
 //@   ensures [C03.C10.ret] result == s && s.writer != nil && (s.writer == old(s.writer) || (old(s.writer) == nil && fresh(s.writer)))
 //@   at call (*dualWriter).Reset assert [C03.forward] callee.s == s.writer && true
 //@
@@ -2043,6 +2081,10 @@ func specWrapped(x LogWriter, w io.Writer) bool {
 //@   requires s != nil
 //@   assigns everything
 //@   maypanic
+//@   keeps Entry.name, Entry.owner, Entry.items, Entry.useJSON, Entry.useColor, Entry.timeLayout, Entry.modeUTC, Entry.level, Entry.attrs, Entry.valueStringer, Entry.handlerOpt, Entry.extraFrames, Entry.contextKeys
+//@   keeps Entry.writer except s
+//@   keeps dualWriter.* except old(s.writer)
+//@   keeps map[string]*Entry
 //@   ensures [C03.C10.ret] result == s && s.writer == old(s.writer)
 //@   ensures [C03.remove-fresh] implies(old(s.writer) == nil, unchanged(s.writer))
 //@   at call (*dualWriter).Remove assert [C03.forward] callee.s == s.writer && callee.w == wr && s.writer != nil
@@ -2052,6 +2094,10 @@ func specWrapped(x LogWriter, w io.Writer) bool {
 //@   requires s != nil
 //@   assigns everything
 //@   maypanic
+//@   keeps Entry.name, Entry.owner, Entry.items, Entry.useJSON, Entry.useColor, Entry.timeLayout, Entry.modeUTC, Entry.level, Entry.attrs, Entry.valueStringer, Entry.handlerOpt, Entry.extraFrames, Entry.contextKeys
+//@   keeps Entry.writer except s
+//@   keeps dualWriter.* except old(s.writer)
+//@   keeps map[string]*Entry
 //@   ensures [C03.C10.ret] result == s && s.writer == old(s.writer)
 //@   ensures [C03.remove-fresh] implies(old(s.writer) == nil, unchanged(s.writer))
 //@   at call (*dualWriter).RemoveErrorWriter assert [C03.forward] callee.s == s.writer && callee.w == wr && s.writer != nil
